@@ -93,12 +93,18 @@ def case_strategy(draw, tier):
         nodes.append(src('S'))
         nb = draw(st.sampled_from([2, 2, 3]))
         ksrcs = []
+        root = 'S'
+        if draw(st.sampled_from([False, False, True])):     # a filter on the trunk, before the split: it may drop frames (ids then have gaps on every branch alike)
+            xbeh = draw(behaviour(n, True, ['main']))
+            xbeh['topics'] = ['main']
+            nodes.append({'id': 'X', 'beh': xbeh, 'start': start(), 'srcs': [{'from': 'S', 'sub': draw(sub_for(['main']))}]})
+            root = 'X'
         for j in range(nb):
             tops = [['main'], ['other'], ['third']][j] + (['x%d' % j] if draw(st.booleans()) else [])
             beh = draw(behaviour(n, False, tops))        # no skipping on a branch that is rejoined
             if beh['ret'] in ('frame', 'callable_frame') and j > 0:
                 beh['ret'], beh['topics'] = 'dict', tops  # a lone Frame is always published as 'main': only one branch may do that
-            nodes.append({'id': f'B{j}', 'beh': beh, 'start': start(), 'srcs': [{'from': 'S', 'sub': draw(sub_for(['main']))}]})
+            nodes.append({'id': f'B{j}', 'beh': beh, 'start': start(), 'srcs': [{'from': root, 'sub': draw(sub_for(['main']))}]})
             sub = draw(sub_for(beh['topics']))
             if sub['form'] == 'main':
                 sub = {'form': 'all'}
